@@ -17,6 +17,7 @@ RULE = ('every opcode cell of the 1-byte, 0F, 0F38 and 0F3A maps x all 256 ModRM
         'both decoders accept; classes = (opcode cell, prefix, mod).')
 RULE += " Round 6: a 'stringops' shard puts the string instructions and the other prefix-sensitive one-byte opcodes under every ordered pair and some triples of rep / operand-size / address-size / segment prefixes; where GNU as cannot read a rendering, the repeat prefix is compared as well wherever IA-32 gives it a meaning (f3 on every string instruction, f2 on cmps/scas)."
 RULE += ' Round 7: all 256 immediates on shift / rotate / double-shift / bit-test / MMX-shift / aam-aad forms (count grid).'
+RULE += ' Round 8: one accepted string in eight is decoded a second and third time through a library stream positioned at a non-zero offset (followed by other bytes / ending exactly with the instruction): length, raw bytes, text and bytes consumed must be those of the plain decode.'
 ASSUMPTIONS = ['GNU binutils 2.40 (objdump -M intel, as --32) is the reading of IA-32 bytes and Intel text; LLVM 14 llvm-objdump is the tie-breaker: '
                'when it disagrees with objdump about the length the case is a reference disagreement, not a violation',
                'a rendering GNU as cannot read is undecided here (C09 judges readability)']
